@@ -226,7 +226,7 @@ func poolCluster(name string, max int32) *proxyv1alpha1.UpstreamCluster {
 }
 
 func TestPropLeaderGuard(t *testing.T) {
-	sub := stats.NewSub("leader-guard-histories", "rapid state machine on the real limiter with a scripted elector (N in 1..4 shards, local / API-backed store): ops gain, lose, foreign leader announced (+leaderCheck), leader entry vanished without callback (+leaderCheck), allocate, acquire, cluster update, for a pool of upstream names; model = set of led shards and the conditions acknowledged per shard; oracle: a call succeeds iff the upstream's shard (reference function) is led, otherwise error naming the recorded leader and no store exists for the shard; a cluster update for a shard not led changes nothing; after lose+regain with the local store earlier conditions are gone; after a successful allocate only the owning shard's store holds the condition; non-trivial = history has a loss of leadership after a successful call and a later call for that shard; distinct by FNV-64 of the op trace")
+	sub := stats.NewSub("leader-guard-histories", "rapid state machine on the real limiter with a real elector without leases (N in 1..4 shards, local / API-backed store): the REAL leader elector driven by leadership events through a hook; ops gain, lose (optionally with a tick of the periodic leader check landing while the loss is being processed), foreign leader announced (+leaderCheck), leader entry vanished without callback (+leaderCheck), allocate, acquire, cluster update, for a pool of upstream names; model = set of led shards and the conditions acknowledged per shard; oracle: a call succeeds iff the upstream's shard (reference function) is led, otherwise error naming the recorded leader and no store exists for the shard; a cluster update for a shard not led changes nothing; after lose+regain with the local store earlier conditions are gone; after a successful allocate only the owning shard's store holds the condition; non-trivial = history has a loss of leadership after a successful call and a later call for that shard; distinct by FNV-64 of the op trace")
 	stats.Check(t, stats.N(4000, 25000), func(t *rapid.T) {
 		n := rapid.IntRange(1, 4).Draw(t, "N")
 		kind := rapid.SampledFrom([]string{"local", "k8s"}).Draw(t, "store")
@@ -276,9 +276,16 @@ func TestPropLeaderGuard(t *testing.T) {
 			},
 			"lose": func(t *rapid.T) {
 				s := rapid.IntRange(0, n-1).Draw(t, "shard")
+				tick := rapid.Bool().Draw(t, "leaderCheckTickWhileTheLossIsProcessed")
+				if tick {
+					// a tick of the periodic leader check lands right after the server released the shard's store, while
+					// the elector is still processing the loss: the server must not consider itself leader there
+					box.Elector.AfterStop = func(int) { box.Limiter.VerifLeaderCheck() }
+				}
 				box.Elector.Lose(s)
+				box.Elector.AfterStop = nil
 				dropShard(s)
-				trace += fmt.Sprintf("lose(%d);", s)
+				trace += fmt.Sprintf("lose(%d,tick=%v);", s, tick)
 			},
 			"vanishedEntry": func(t *rapid.T) {
 				// the leader table no longer names anybody for the shard and the lost-leadership callback did not (or not yet)
